@@ -14,7 +14,7 @@
 (* module, defines Rejects(i) (the set of clause names line i violates)    *)
 (* and instantiates the one-variable behaviour below.                      *)
 (***************************************************************************)
-EXTENDS Integers, Sequences, FiniteSets, TLC, TLCExt, Json, IOUtils
+EXTENDS EnvKit, TLCExt, Json, IOUtils
 
 CONSTANT Enabled     \* set of property ids whose clause groups are evaluated
 
@@ -37,25 +37,10 @@ PreTs(i) == TraceLog[TraceLog[i].par].ts       \* timestep the agent saw before 
 IsReset(i) == TraceLog[i].k = "reset"
 IsStep(i)  == TraceLog[i].k = "step"
 
-FIRST == 0
-MID   == 1
-LAST  == 2
-
 On(p) == p \in Enabled
 
 (* A clause group is a set of <<name, holds>> pairs; a verdict is the set of names that fail. *)
 Failed(group) == { c[1] : c \in { d \in group : ~d[2] } }
-
-(* Fixed point: floats are exported as round(x * 2^16). *)
-FX == 65536
-Abs(x) == IF x < 0 THEN -x ELSE x
-Near(q, num, den, tol) == Abs(q * den - num * FX) <= tol * den      \* q ~ num/den within tol/65536
-NearI(q, n, tol) == Abs(q - n * FX) <= tol
-
-AllSeq(sq, P(_)) == \A j \in 1..Len(sq) : P(sq[j])
-AnySeq(sq, P(_)) == \E j \in 1..Len(sq) : P(sq[j])
-RECURSIVE SumSeq(_)
-SumSeq(sq) == IF sq = <<>> THEN 0 ELSE sq[1] + SumSeq(Tail(sq))
 
 (***************************************************************************)
 (* C03: FIRST, MID*, LAST protocol, generic over every environment.        *)
